@@ -192,6 +192,7 @@ func (fr *Frame) load(l *Loc) Term {
 		st := types.Unalias(l.Type).Underlying().(*types.Struct)
 		f := st.Field(path[0])
 		fs := tm.SortOf(f.Type())
+		fr.R.Heap.NoteType(fieldComp(l.Type, f.Name()), f.Type())
 		arr := fr.R.Heap.Get(fr.st, fieldComp(l.Type, f.Name()), ArraySort(SInt, fs))
 		base = Select(arr, l.Ref, fs)
 		baseType = f.Type()
@@ -204,12 +205,14 @@ func (fr *Frame) load(l *Loc) Term {
 		if fr.st.vol[l.Ref.S] {
 			base = fr.freshTyped("vol", l.Type)
 		} else {
+			fr.R.Heap.NoteType(boxComp(l.Type), l.Type)
 			arr := fr.R.Heap.Get(fr.st, boxComp(l.Type), ArraySort(SInt, s))
 			base = Select(arr, l.Ref, s)
 		}
 		baseType = l.Type
 	case LElem:
 		s := tm.SortOf(l.Type)
+		fr.R.Heap.NoteType(elemsComp(l.Type), l.Type)
 		arr := fr.R.Heap.Get(fr.st, elemsComp(l.Type), ArraySort(SInt, ArraySort(SInt, s)))
 		base = Select(Select(arr, l.Ref, ArraySort(SInt, s)), l.Idx, s)
 		baseType = l.Type
@@ -247,6 +250,7 @@ func (fr *Frame) loadStruct(ref Term, t types.Type) Term {
 	}
 	args := make([]Term, len(si.Fields))
 	for i, f := range si.Fields {
+		fr.R.Heap.NoteType(fieldComp(t, f.Name), f.Type)
 		arr := fr.R.Heap.Get(fr.st, fieldComp(t, f.Name), ArraySort(SInt, f.Sort))
 		args[i] = Select(arr, ref, f.Sort)
 	}
@@ -428,7 +432,7 @@ func (fr *Frame) execInstr(in ssa.Instruction) {
 			v.T = fr.termOf(v)
 		}
 		fr.store(l, fr.termOf(v))
-		if g, ok := in.Addr.(*ssa.Global); ok && fr.top && fr.Fn.Name() == "init" {
+		if g, ok := in.Addr.(*ssa.Global); ok && fr.top && fr.R.inInit {
 			fr.checkGlobalInvAtStore(g, in.Pos())
 		}
 		if l.Kind == LReg && v.Loc != nil {
@@ -1011,6 +1015,7 @@ func (fr *Frame) mapDom(m Term, mt *types.Map) Term {
 
 func (fr *Frame) mapVals(m Term, mt *types.Map) Term {
 	ks, vs := fr.mapSorts(mt)
+	fr.R.Heap.NoteType(mapValComp(mt), mt.Elem())
 	return Select(fr.R.Heap.Get(fr.st, mapValComp(mt), ArraySort(SInt, ArraySort(ks, vs))), m, ArraySort(ks, vs))
 }
 
